@@ -86,9 +86,80 @@ func classify(t types.Type) byte {
 }
 
 func (r *pathRun) run(fn *ssa.Function, args []pval) []pval {
+	res, _ := r.exec(fn, args, nil)
+	return res
+}
+
+// cellClosures: when every use of the local cell al is a store, a load, or its capture by
+// function literals that run on the spot (called directly, or handed to a new helper whose
+// entry block calls them), the captures by creating instruction; ok=false otherwise.
+func cellClosures(al *ssa.Alloc) (map[*ssa.Call][]*ssa.MakeClosure, bool) {
+	out := map[*ssa.Call][]*ssa.MakeClosure{}
+	for _, ref := range *al.Referrers() {
+		switch x := ref.(type) {
+		case *ssa.Store:
+			if x.Addr != ssa.Value(al) {
+				return nil, false
+			}
+		case *ssa.UnOp:
+		case *ssa.DebugRef:
+		case *ssa.MakeClosure:
+			g, _ := x.Fn.(*ssa.Function)
+			if g == nil {
+				return nil, false
+			}
+			for _, u := range *x.Referrers() {
+				call, isCall := u.(*ssa.Call)
+				if !isCall {
+					return nil, false
+				}
+				if call.Common().Value == ssa.Value(x) {
+					out[call] = append(out[call], x) // func(){…}()
+					continue
+				}
+				runs := false
+				for _, rc := range runByNewHelper(g) {
+					if rc == call {
+						runs = true
+					}
+				}
+				h := call.Common().StaticCallee()
+				if !runs || h == nil {
+					return nil, false
+				}
+				// the helper runs the literal exactly once: its only call of that parameter is in its entry block
+				n, entry := 0, false
+				for _, hb := range h.Blocks {
+					for _, hin := range hb.Instrs {
+						if hc, ok := hin.(ssa.CallInstruction); ok {
+							if prm, ok := hc.Common().Value.(*ssa.Parameter); ok && prm.Parent() == h {
+								for i, a := range call.Common().Args {
+									if a == ssa.Value(x) && i < len(h.Params) && h.Params[i] == prm {
+										n++
+										_, plain := hin.(*ssa.Call)
+										entry = plain && hb == h.Blocks[0]
+									}
+								}
+							}
+						}
+					}
+				}
+				if n != 1 || !entry {
+					return nil, false
+				}
+				out[call] = append(out[call], x)
+			}
+		default:
+			return nil, false
+		}
+	}
+	return out, true
+}
+
+func (r *pathRun) exec(fn *ssa.Function, args []pval, free map[*ssa.FreeVar]func() (pval, bool)) ([]pval, *Interp) {
 	if r.depth > 5 {
 		r.err = "call depth exceeded"
-		return nil
+		return nil, nil
 	}
 	r.depth++
 	defer func() { r.depth-- }()
@@ -140,9 +211,79 @@ func (r *pathRun) run(fn *ssa.Function, args []pval) []pval {
 			path := paths[x.X] + "." + fieldNameOf(st.Field(x.Field))
 			paths[v] = path
 			return atomAt(path, x.Type())
+		case *ssa.FreeVar:
+			if get, ok := free[x]; ok {
+				if pv, ok := get(); ok {
+					paths[v] = pv.P
+					return pv.AVal, true
+				}
+			}
+			return AVal{}, false
 		case *ssa.UnOp:
-			if _, isAlloc := x.X.(*ssa.Alloc); isAlloc {
-				return AVal{}, false
+			if al, isAlloc := x.X.(*ssa.Alloc); isAlloc {
+				// a local captured by function literals that run on the spot: the value is what
+				// the last store on the executed path left, in this function or in such a literal
+				caps, ok := cellClosures(al)
+				if x.Op != token.MUL || !ok || len(caps) == 0 {
+					return AVal{}, false
+				}
+				pos := -1
+				for i := len(it.trace) - 1; i >= 0; i-- {
+					if it.trace[i] == x.Block() {
+						pos = i
+						break
+					}
+				}
+				for i := pos; i >= 0; i-- {
+					b := it.trace[i]
+					end := len(b.Instrs)
+					if i == pos {
+						end = instrIndex(x)
+					}
+					for j := end - 1; j >= 0; j-- {
+						switch in := b.Instrs[j].(type) {
+						case *ssa.Store:
+							if in.Addr == ssa.Value(al) {
+								a := eval(in.Val)
+								paths[v] = paths[in.Val]
+								return a, true
+							}
+						case *ssa.Call:
+							for _, mc := range caps[in] {
+								if pv, stored := r.cellAfterLiteral(mc, al, eval, paths); stored {
+									paths[v] = pv.P
+									return pv.AVal, true
+								}
+								if r.err != "" {
+									return AVal{K: '?'}, true
+								}
+							}
+						}
+					}
+				}
+				r.err = "load of captured local before any store on the path"
+				return AVal{K: '?'}, true
+			}
+			if fv, isFV := x.X.(*ssa.FreeVar); isFV && x.Op == token.MUL {
+				if _, bound := free[fv]; !bound {
+					// a captured cell read inside the literal: the literal's own last store
+					for i := len(it.trace) - 1; i >= 0; i-- {
+						b := it.trace[i]
+						end := len(b.Instrs)
+						if b == x.Block() && i == len(it.trace)-1 {
+							end = instrIndex(x)
+						}
+						for j := end - 1; j >= 0; j-- {
+							if st, ok := b.Instrs[j].(*ssa.Store); ok && st.Addr == ssa.Value(fv) {
+								a := eval(st.Val)
+								paths[v] = paths[st.Val]
+								return a, true
+							}
+						}
+					}
+					r.err = "captured local read inside a function literal before it stores to it"
+					return AVal{K: '?'}, true
+				}
 			}
 			if x.Op == token.MUL {
 				b := eval(x.X)
@@ -237,7 +378,55 @@ func (r *pathRun) run(fn *ssa.Function, args []pval) []pval {
 			res = append(res, pval{o, ""})
 		}
 	}
-	return res
+	return res, it
+}
+
+// cellAfterLiteral runs the function literal created by mc (its free variables read the
+// creator's values) and reports what it last stored into the captured cell al, if anything.
+func (r *pathRun) cellAfterLiteral(mc *ssa.MakeClosure, al *ssa.Alloc, eval func(ssa.Value) AVal, paths map[ssa.Value]string) (pval, bool) {
+	g := mc.Fn.(*ssa.Function)
+	free := map[*ssa.FreeVar]func() (pval, bool){}
+	var cell *ssa.FreeVar
+	for i, bnd := range mc.Bindings {
+		if i >= len(g.FreeVars) {
+			break
+		}
+		bnd := bnd
+		if bnd == ssa.Value(al) {
+			cell = g.FreeVars[i]
+			continue
+		}
+		if _, isCell := bnd.(*ssa.Alloc); isCell {
+			continue // another captured local: only its stores inside the literal are visible there
+		}
+		free[g.FreeVars[i]] = func() (pval, bool) {
+			a := eval(bnd)
+			return pval{a, paths[bnd]}, a.K != '?'
+		}
+	}
+	if cell == nil || len(g.Blocks) == 0 {
+		return pval{}, false
+	}
+	_, it2 := r.exec(g, nil, free)
+	if it2 == nil || r.err != "" {
+		if r.err == "" {
+			r.err = "cannot interpret function literal " + FuncKey(g)
+		}
+		return pval{}, false
+	}
+	for i := len(it2.trace) - 1; i >= 0; i-- {
+		b := it2.trace[i]
+		for j := len(b.Instrs) - 1; j >= 0; j-- {
+			if st, ok := b.Instrs[j].(*ssa.Store); ok && st.Addr == ssa.Value(cell) {
+				a := it2.eval(st.Val)
+				if it2.Err != "" && r.err == "" {
+					r.err = FuncKey(g) + ": " + it2.Err
+				}
+				return pval{a, ""}, true
+			}
+		}
+	}
+	return pval{}, false
 }
 
 // exhaust evaluates kernel and spec over every abstract input and compares.
